@@ -4,7 +4,8 @@ package main
 //
 // Shared pieces: history generator, the independent Go reference ("content" = key -> versions and the read
 // API as functions of a content), canonical answers, adapters for the real embedded/store read API,
-// classification of index-content deviations against the known defects of indexer.indexSince.
+// classification of index-content deviations against the (repaired) defects of indexer.indexSince, so that a
+// returning defect is reported under its own signature.
 
 import (
 	"bytes"
@@ -24,7 +25,8 @@ import (
 
 func init() { runners["C04"] = runC04 }
 
-// known-finding signatures (see known_findings.json)
+// oracle signatures (known_findings.json: db.Count is a known finding, the indexSince / Snapshot.History /
+// GetBetween ones are repaired and listed under "fixed")
 const (
 	c04SigAlias     = "C04:indexer.indexSince:key-aliasing-across-txs-in-bulk"
 	c04SigInjBulk   = "C04:indexer.indexSince:injective-prev-lookup-at-bulk-start"
